@@ -77,6 +77,13 @@ def gen_case(rng, index, tier):
                         name_kw={'allow_bad_utf8': False})
     if arg['spelling'].startswith('-'):
         arg['spelling'] = './' + arg['spelling']
+    if rng.random() < 0.3:
+        # the entry (and its directory) belong to a uid/gid without passwd or
+        # group entry: a foreign disk, an unpacked archive, a deleted account
+        for nd in L.nodes:
+            if nd['p'] == arg['rel'] or nd['p'].startswith(arg['rel'] + '/') or \
+                    nd['p'] == os.path.dirname(arg['rel']):
+                nd['o'] = [54321, 54322]
     state = rng.choice(['first-use', 'existing', 'collision', 'orphan-dir',
                         'stale-info', 'dangling-pair'])
     if where in ('home', 'fallback'):
